@@ -377,94 +377,49 @@ def discharge(o, timeout_ms=20000, use_cvc5=True):
     return o
 
 
-def _margin_constraints(goal, rel):
-    """Strengthenings of Not(goal) that ask for a violation by a clear margin (so that the native replay,
-    which ignores float-rounding-sized discrepancies, can confirm it)."""
-    out = []
-    k = goal.decl().kind() if z3.is_app(goal) else None
+_CMP = (z3.Z3_OP_LE, z3.Z3_OP_GE, z3.Z3_OP_LT, z3.Z3_OP_GT, z3.Z3_OP_EQ, z3.Z3_OP_DISTINCT)
+
+
+def _robust(f, rel, positive):
+    """A strengthening of f (positive) or of Not(f) (not positive) that holds by a clear relative margin, so
+    that the native replay - which ignores float-rounding-sized discrepancies - can confirm it."""
+    k = f.decl().kind() if z3.is_app(f) else None
+    ch = f.children() if z3.is_app(f) else []
+    if k == z3.Z3_OP_NOT:
+        return _robust(ch[0], rel, not positive)
     if k == z3.Z3_OP_AND:
-        for c in goal.children():
-            out.extend(_margin_constraints(c, rel))
-        return out
-    if k == z3.Z3_OP_IMPLIES:
-        p, q = goal.children()
-        return [z3.And(p, m) for m in _margin_constraints(q, rel)]
+        parts = [_robust(c, rel, positive) for c in ch]
+        return z3.And(parts) if positive else z3.Or(parts)
     if k == z3.Z3_OP_OR:
-        ch = goal.children()
-        # Or(not p, q): treat like an implication when exactly one disjunct is a comparison
-        cmps = [c for c in ch if z3.is_app(c) and c.decl().kind() in (z3.Z3_OP_LE, z3.Z3_OP_GE, z3.Z3_OP_LT, z3.Z3_OP_GT, z3.Z3_OP_EQ)]
-        if len(cmps) == 1:
-            rest = [z3.Not(c) for c in ch if c is not cmps[0]]
-            return [z3.And(rest + [m]) for m in _margin_constraints(cmps[0], rel)]
-        return out
-    if k in (z3.Z3_OP_LE, z3.Z3_OP_GE, z3.Z3_OP_LT, z3.Z3_OP_GT, z3.Z3_OP_EQ):
-        a, b = goal.children()
-        if not (z3.is_arith(a) and z3.is_arith(b)):
-            return out
+        parts = [_robust(c, rel, positive) for c in ch]
+        return z3.Or(parts) if positive else z3.And(parts)
+    if k == z3.Z3_OP_IMPLIES:
+        p, q = ch
+        if positive:
+            return z3.Or(_robust(p, rel, False), _robust(q, rel, True))
+        return z3.And(_robust(p, rel, True), _robust(q, rel, False))
+    if k in _CMP and len(ch) == 2 and z3.is_arith(ch[0]) and z3.is_arith(ch[1]):
+        a, b = ch
         if a.sort() != b.sort():
             a = z3.ToReal(a) if z3.is_int(a) else a
             b = z3.ToReal(b) if z3.is_int(b) else b
-        absb = z3.If(b >= 0, b, -b)
-        absa = z3.If(a >= 0, a, -a)
-        m = rel * (absa + absb)
-        if k in (z3.Z3_OP_LE, z3.Z3_OP_LT):
-            out.append(a > b + m)
-        elif k in (z3.Z3_OP_GE, z3.Z3_OP_GT):
-            out.append(a < b - m)
-        else:
-            out.append(z3.Or(a > b + m, a < b - m))
-    return out
+        m = rel * (z3.If(a >= 0, a, -a) + z3.If(b >= 0, b, -b)) + rel
+        op = k
+        if not positive:
+            op = {z3.Z3_OP_LE: z3.Z3_OP_GT, z3.Z3_OP_GE: z3.Z3_OP_LT, z3.Z3_OP_LT: z3.Z3_OP_GE, z3.Z3_OP_GT: z3.Z3_OP_LE,
+                  z3.Z3_OP_EQ: z3.Z3_OP_DISTINCT, z3.Z3_OP_DISTINCT: z3.Z3_OP_EQ}[k]
+        if op in (z3.Z3_OP_LE, z3.Z3_OP_LT):
+            return a <= b - m
+        if op in (z3.Z3_OP_GE, z3.Z3_OP_GT):
+            return a >= b + m
+        if op == z3.Z3_OP_DISTINCT:
+            return z3.Or(a >= b + m, a <= b - m)
+        return a == b
+    return f if positive else z3.Not(f)
 
 
-def _input_consts(fs):
-    """Uninterpreted arithmetic constants named by the contract (no '!': not engine-generated)."""
-    seen, out = set(), {}
-    stack = list(fs)
-    while stack:
-        x = stack.pop()
-        i = x.get_id()
-        if i in seen:
-            continue
-        seen.add(i)
-        if z3.is_const(x) and x.decl().kind() == z3.Z3_OP_UNINTERPRETED and z3.is_arith(x):
-            out[x.decl().name()] = x
-        stack.extend(x.children())
-    return [out[k] for k in sorted(out)]
-
-
-def model_by_concretisation(hyps, neg_goal, tries=40, seed=0):
-    """Model search for non-linear obligations the solvers leave open: fix a random subset of the input
-    constants to simple rationals (which makes the rest linear) and re-check.  Only ever used to find a
-    counter-model for the native replay; never to discharge anything."""
-    import random
-
-    rnd = random.Random(seed)
-    consts = _input_consts(list(hyps) + [neg_goal])
-    pool = ["0", "1", "2", "3", "1/2", "3/5", "4/5", "10", "100", "7", "1/10", "25", "1000", "3/2"]
-    s = z3.Solver()
-    s.set("timeout", 1500)
-    for h in hyps:
-        s.add(h)
-    s.add(neg_goal)
-    for t in range(tries):
-        s.push()
-        frac_fixed = rnd.choice([0.4, 0.6, 0.8, 1.0])
-        for c in consts:
-            if rnd.random() < frac_fixed:
-                v = rnd.choice(pool)
-                if z3.is_int(c):
-                    if "/" in v:
-                        continue
-                    s.add(c == z3.IntVal(int(v)))
-                else:
-                    s.add(c == z3.RealVal(v))
-        r = s.check()
-        if r == z3.sat:
-            m = s.model()
-            s.pop()
-            return m
-        s.pop()
-    return None
+def _margin_constraints(goal, rel):
+    return [_robust(goal, rel, False)]
 
 
 def robust_models(s, goal):
@@ -473,9 +428,6 @@ def robust_models(s, goal):
     budget = 6
     for rel in (z3.RealVal("0.05"), z3.RealVal("0.000001")):
         mcs = _margin_constraints(goal, rel)
-        if len(mcs) > 3:
-            # one query for "some conjunct is violated by a clear margin"
-            mcs = [z3.Or(mcs)]
         for mc in mcs:
             if budget <= 0:
                 break
